@@ -154,8 +154,8 @@ def prepare_slot(slot, overlays, extra_files=None):
                 "--exclude", "/Cargo.toml", "--exclude", "/.cargo"]
     for rel in overlays:
         excludes += ["--exclude", "/" + rel]
-    subprocess.run(["rsync", "-a", "--delete"] + excludes + [REPO + "/", slot.src + "/"],
-                   check=True)
+    from . import mir as _mir
+    _mir.sync_repo(slot.src, excludes=[e for e in excludes if e != "--exclude"])
     # Cargo.toml: declare cfg(kani) to the unexpected_cfgs lint (needed by native playback
     # builds, which unlike `cargo kani` do not pass --check-cfg=cfg(kani) themselves)
     with open(os.path.join(REPO, "Cargo.toml")) as f:
